@@ -854,7 +854,11 @@ fn tcp_decode_oracle(bs: &[u8], plen: usize, sa: u32, da: u32, h: &Option<TcpHea
                     let mut want = bs[..20].to_vec();
                     want[12] &= 0xf0;
                     want[13] &= 0x3f;
-                    if reserved && v[..] == want[..] {
+                    if reserved && v[..] == want[..] && CK {
+                        // the re-encoding clause belongs to C08 (default build); C18 does not claim it
+                        stat("tcpd_reserved_bits_dropped");
+                        DecVerdict::Ok
+                    } else if reserved && v[..] == want[..] {
                         DecVerdict::Known(format!("tcp re-encode drops reserved bits: {} -> {}", hex(&bs[..20]), hex(v)))
                     } else {
                         DecVerdict::Fail(format!("tcp re-encode mismatch: {} -> {}", hex(&bs[..20]), hex(v)))
